@@ -35,6 +35,15 @@ Theorem C06_inactive_is_frozen c n0 s evs s' : 1 <= height c -> reach c n0 s -> 
 Proof. intros H R E. exact (frozen_run c evs s s' (reach_INV c n0 s H R) E). Qed.
 Print Assumptions C06_inactive_is_frozen.
 
+(* an active deme becomes inactive in one step only for a stated cause — the global stop condition answered true at one of its
+   own consults, its local stop condition answered true, CMA-ES stopped itself, or its one-shot local search completed — and only
+   while it is the deme whose metaepoch is in progress *)
+Theorem C06_deactivation_has_a_cause c s e s' i : step c s e = Some s' -> i < length (demes s) ->
+  d_active (dnth i (demes s)) = true -> d_active (dnth i (demes s')) = false ->
+  (e = EGsc true \/ e = ELsc true \/ e = ECma true \/ exists n, e = ELocal n) /\ exists t g sub, pc s = PDeme t i g sub.
+Proof. exact (deactivation_has_a_cause c s e s' i). Qed.
+Print Assumptions C06_deactivation_has_a_cause.
+
 (* a fresh deme is active, awake, has run no metaepoch and is not scheduled in the metaepoch that created it *)
 Theorem C06_fresh lvl par m ev : let d := new_deme lvl par m ev in d_active d = true /\ d_hib d = false /\ d_meta d = 0 /\ d_should d = false /\ d_started d = m.
 Proof. repeat split. Qed.
